@@ -1059,6 +1059,16 @@ struct json_object *json_tokener_parse_ex(struct json_tokener *tok, const char *
 				int64_t num64;
 				uint64_t numuint64;
 				double numd;
+				if (tok->flags & JSON_TOKENER_STRICT)
+				{
+					/* no superfluous leading zeros: "00", "-01", "012.5" */
+					const char *digits = tok->pb->buf + (tok->pb->buf[0] == '-' ? 1 : 0);
+					if (digits[0] == '0' && digits[1] >= '0' && digits[1] <= '9')
+					{
+						tok->err = json_tokener_error_parse_number;
+						goto out;
+					}
+				}
 				if (!tok->is_double && tok->pb->buf[0] == '-' &&
 				    json_parse_int64(tok->pb->buf, &num64) == 0)
 				{
